@@ -38,6 +38,7 @@ from .utils.dataclass_compat import _set_new_attribute
 from .utils.function_builder import FunctionBuilder
 from .utils.object_path import safe_get
 from .utils.string_conv import to_snake_case
+from . import _verif  # verification hook H2 (no-op by default)
 from .utils.type_conv import (
     as_bool, as_str, as_datetime, as_date, as_time, as_int, as_timedelta
 )
@@ -550,6 +551,7 @@ def load_func_for_dataclass(
 
     # TODO dynamically generate for multiple nested classes at once
 
+    _verif.yp('load.gen')
     # Tuple describing the fields of this dataclass.
     cls_fields = dataclass_fields(cls)
 
@@ -672,6 +674,10 @@ def load_func_for_dataclass(
                         fn_gen.add_line("field = json_to_field[json_key]")
 
                     with fn_gen.except_(KeyError):
+                        if _verif.active():
+                            # verification hook H2: only when a scheduler is attached
+                            _locals['_yp'] = _verif.yp
+                            fn_gen.add_line("_yp('key_cache.miss')")
                         fn_gen.add_line('# Lookup Field for JSON Key')
                         # Determines the dataclass field which a JSON key should map to.
                         # Note this logic only runs the initial time, i.e. the first time
@@ -689,6 +695,8 @@ def load_func_for_dataclass(
                             # Transform JSON field name (typically camel-cased) to the
                             # snake-cased variant which is convention in Python.
                             fn_gen.add_line("py_field = py_case(json_key)")
+                            if _verif.active():
+                                fn_gen.add_line("_yp('key_cache.store')")
 
                             with fn_gen.try_():
                                 # Do a case-insensitive lookup of the dataclass field, and
@@ -782,9 +790,11 @@ def load_func_for_dataclass(
     if is_main_class:
         # Check if the class has a `from_dict`, and it's
         # a class method bound to `fromdict`.
+        _verif.yp('load.setattr')
         if ((from_dict := getattr(cls, 'from_dict', None)) is not None
                 and getattr(from_dict, '__func__', None) is fromdict):
             _set_new_attribute(cls, 'from_dict', cls_fromdict)
+        _verif.yp('load.store')
         CLASS_TO_LOAD_FUNC[cls] = cls_fromdict
 
     return cls_fromdict
